@@ -449,6 +449,10 @@ class HttpParser:
             raise InvalidChunkSize(chunk_size)
 
         if chunk_size == 0:
+            # the last chunk is followed by optional trailers and a final
+            # CRLF: wait until they have arrived as well
+            if rest_chunk[:2] != b'\r\n' and b'\r\n\r\n' not in rest_chunk:
+                return None, None
             self._parse_trailers(rest_chunk)
             return 0, None
         return chunk_size, rest_chunk
